@@ -119,3 +119,14 @@ pub mod conv {
         core::mem::forget(k);
     }
 }
+
+// ---- C02 / C06: the hash-to-scalar and hash-to-group maps with a concrete 64-byte digest (curve25519-dalek feature `digest`)
+#[cfg(feature = "digest")]
+pub mod hashmaps {
+    use curve25519_dalek::{ristretto::RistrettoPoint, scalar::Scalar};
+    use sha2::{Digest, Sha512};
+    #[inline(never)] pub fn vp_sc_hash_from_bytes(m: &[u8], out: &mut Scalar) { *out = Scalar::hash_from_bytes::<Sha512>(m) }
+    #[inline(never)] pub fn vp_sc_from_hash(m1: &[u8], m2: &[u8], out: &mut Scalar) { let mut h = Sha512::new(); h.update(m1); h.update(m2); *out = Scalar::from_hash(h) }
+    #[inline(never)] pub fn vp_ris_hash_from_bytes(m: &[u8], out: &mut RistrettoPoint) { *out = RistrettoPoint::hash_from_bytes::<Sha512>(m) }
+    #[inline(never)] pub fn vp_ris_from_hash(m1: &[u8], m2: &[u8], out: &mut RistrettoPoint) { let mut h = Sha512::new(); h.update(m1); h.update(m2); *out = RistrettoPoint::from_hash(h) }
+}
